@@ -20,6 +20,7 @@ package fence
 import (
 	"context"
 	"database/sql"
+	"errors"
 	"fmt"
 
 	"seata.apache.org/seata-go/pkg/rm/tcc/fence/enum"
@@ -29,7 +30,12 @@ import (
 
 // WithFence Execute the fence database operation first and then call back the business method
 func WithFence(ctx context.Context, tx *sql.Tx, callback func() error) (err error) {
-	if err = DoFence(ctx, tx); err != nil {
+	if err = doFence(ctx, tx); err != nil {
+		// the fence settled this delivery by itself (duplicate of a finished phase two, or a
+		// rollback that arrived before try): success, and the business method must not run again
+		if errors.Is(err, handler.ErrSkipBusiness) {
+			return nil
+		}
 		return err
 	}
 
@@ -48,6 +54,15 @@ func WithFence(ctx context.Context, tx *sql.Tx, callback func() error) (err erro
 // case 4: if fencePhase is FencePhaseRollback, will do rollback fence operation.
 // case 5: if fencePhase not in above case, will return a fence phase illegal error.
 func DoFence(ctx context.Context, tx *sql.Tx) error {
+	if err := doFence(ctx, tx); err != nil && !errors.Is(err, handler.ErrSkipBusiness) {
+		return err
+	}
+	return nil
+}
+
+// doFence is DoFence, except that it reports handler.ErrSkipBusiness when the fence operation
+// succeeded without leaving anything for the business method to do
+func doFence(ctx context.Context, tx *sql.Tx) error {
 	hd := handler.GetFenceHandler()
 	phase := tm.GetFencePhase(ctx)
 
